@@ -7,7 +7,7 @@ HOOKS = {
     "add_only": True,
 }
 ENGINES = [
-    {"name": "grid", "path": "/verif/mc/props", "serves_properties": ["C04", "C05", "C06"],
+    {"name": "grid", "path": "/verif/mc/props", "serves_properties": ["C04", "C05", "C06", "C07"],
      "kind_free_text": "complete Cartesian products of finite input alphabets executed on the real code and compared with an explicit oracle or metamorphic relation"},
     {"name": "fault", "path": "/verif/mc/props/C08.py", "serves_properties": ["C08"],
      "kind_free_text": "fault-point enumerator: public-API fault menu x position and sys.settrace call-level injection, snapshot oracle"},
@@ -105,5 +105,13 @@ CHECKS["C05"] = dict(
          "triple) of {add, remove, move leaf, re-parent} is applied between computations; linearity: 10 classes x B/H x 4 excitations x "
          "{6 scalings incl. 0, 1e-12, 1e12; sums with 3 partners} at inside/outside/far observers.",
     note="rel. tolerance 1e-10; reference for a leaf is the library's single-source call.")
+CHECKS["C07"] = dict(
+    engine="grid", level="exploration", design_ref="DESIGN.md §4 C07",
+    technique="bounded-exhaustive enumeration of interface forms and functional-interface argument shapes on the real code against the object-interface value",
+    text="Functional interface: 11 class forms x n in {1,2,3,5} x every subset of {excitation, geometry, position, orientation, observers} "
+         "given per instance (others single, to be tiled) x B/H/J/M (+ list inputs) vs n explicitly constructed objects; 13 call forms "
+         "(source/sensor/collection methods, multi-argument forms, sumup, squeeze, dataframe order) for all 13 registered classes incl. "
+         "Loop/Line aliases and CustomSource x 4 fields x path length {1,3}; all 9 exported core functions vs the object interface.",
+    note="rel. tolerance 1e-10; the reference is the library's own single-object, single-observer evaluation.")
 _todo = "check not built yet in this session (planned, see DESIGN.md §4); nothing is claimed for it"
 NOT_APPLICABLE = [{"property_id": f"C{i:02d}", "reason": _todo} for i in range(1, 21) if f"C{i:02d}" not in CHECKS]
